@@ -397,4 +397,65 @@ def run(chk):
     chk.assumptions += ["arities of tuples / type-argument lists / struct fields are enumerated up to 3 (2 for structs): a stated bound on the SHAPE, all leaf classifications are symbolic",
                         "hugr type classes, Hugr graph API and qualified_name are modelled as records/tables (requires_drop/insert_drops obligations are about the case analysis and the port loop)"]
     chk.not_covered += ["linearity checker's use of the flags (C06)", "that `drop` is a valid op for the port type (C01)"]
+    bound_spellings(chk, e)
     chk.use_engine(e)
+
+
+def bound_spellings(chk, e):
+    """parse_parameter (tys/parsing.py): the copy/drop bound a type variable is declared with.  Every
+    spelling — no bound, `Copy`, `Drop`, `(Copy, Drop)`, `(Drop, Copy)` — yields a type parameter that
+    must be copyable iff Copy is among the bounds and droppable iff Drop is (order irrelevant); these two
+    flags are what BoundTypeVar.copyable / droppable and the HUGR bound of the variable are built from."""
+    from .common import ast_from_source
+    PM = "guppylang_internals.tys.parsing"
+    e.func_info(PM, "parse_parameter")
+    m = e.module(PM)
+    n = 0
+    for spelling, names in (("T", ()), ("T: Copy", ("Copy",)), ("T: Drop", ("Drop",)), ("T: (Copy, Drop)", ("Copy", "Drop")), ("T: (Drop, Copy)", ("Drop", "Copy"))):
+        def t(it, spelling=spelling):
+            # the ast.TypeVar node of `def f[<spelling>](): ...` (built by hand: the host Python may predate PEP 695)
+            from pyvc.astmodel import ast_classes
+            bound = ast_from_source(it, spelling.split(": ", 1)[1], mode="eval").fields["body"] if ": " in spelling else None
+            node = SObj(ast_classes(e)["TypeVar"], {"name": "T", "bound": bound, "lineno": 1, "col_offset": 6, "end_lineno": 1, "end_col_offset": 7})
+            return it.call(it.lookup_global(m, "parse_parameter"), [node, 3, SObj(ClassVal("Globals", builtin=True), {}), {}], {})
+        paths = e.explore(t)
+
+        def post(p, names=names):
+            if p.kind != "return" or not isinstance(p.value, SObj) or p.value.cls.name != "TypeParam":
+                return z3.BoolVal(False)
+            f = p.value.fields
+            return z3.BoolVal(f.get("must_be_copyable") is ("Copy" in names) and f.get("must_be_droppable") is ("Drop" in names) and f.get("idx") == 3 and f.get("name") == "T")
+        chk.prove_paths(f"parse_parameter[{spelling}]:must_be_copyable<=>Copy-among-the-bounds/\\must_be_droppable<=>Drop-among-the-bounds", paths, post, func=f"{PM}:parse_parameter",
+                        replay=lambda m_: {"script": REPLAY_BOUNDS, "input": {}})
+        n += 1
+    chk.record("parse_parameter:bound-spellings-explored", n == 5, str(n), kind="reachability")
+
+
+REPLAY_BOUNDS = r'''
+import tempfile, importlib.util, os, sys, shutil
+from guppylang_internals.error import GuppyError
+src = """from guppylang import guppy
+@guppy
+def dup[T: (Drop, Copy)](x: T) -> tuple[T, T]:
+    return x, x
+@guppy
+def dup2[T: (Copy, Drop)](x: T) -> tuple[T, T]:
+    return x, x
+@guppy
+def main() -> None:
+    dup(1)
+    dup2(2)
+"""
+d = tempfile.mkdtemp(dir=os.environ.get("TMPDIR", "/var/tmp")); fn = os.path.join(d, "replay_c14b.py"); open(fn, "w").write(src)
+spec = importlib.util.spec_from_file_location("replay_c14b", fn); m = importlib.util.module_from_spec(spec); sys.modules["replay_c14b"] = m
+try:
+    spec.loader.exec_module(m)
+    try:
+        m.main.check(); out = {"violates": False, "observed": "accepted"}
+    except GuppyError as ex:
+        out = {"violates": True, "observed": "rejected: " + type(ex.error).__name__, "required": "a variable bounded by Drop and Copy (either order) may be used twice"}
+except Exception as ex:
+    out = {"violates": False, "error": repr(ex)[:300]}
+shutil.rmtree(d, ignore_errors=True)
+print(json.dumps(out))
+'''
